@@ -16,14 +16,17 @@ def _report(run, rejected, res):
         per_clause[clause] += 1
         hb = dp.header_bits(ev["hex"])
         sig = {"clause": clause, "df": hb["df"], "out": ev["out"], "fb_out": ev["fb_out"], "at": ev.get("at", "")}
+        if clause == "context":
+            sig["order"] = ev.get("order", "")
         n_sig[json.dumps(sig, sort_keys=True)] += 1
         if n_sig[json.dumps(sig, sort_keys=True)] > 5:
             run.report(sig, {"frame_hex": ev["hex"]})
             continue
         run.report(sig, {"frame_hex": ev["hex"], "shape": ev["cls"], "index": ev["i"], "recorded": ev,
                          "tc": hb["tc"], "subtype": hb["subtype"], "panic": ev.get("ptxt", ""),
+                         "decoded_just_before": ev.get("prev", ""),
                          "spec": "Trace_Decode.tla: outcome in {ok, err}; ok => length = LenFor(DF); "
-                                 "both calls equal; Display/Debug return",
+                                 "both calls equal; Display/Debug return; result independent of what was decoded before",
                          "reproduce": f"{res['exe']} probe {ev['hex']}"})
     return per_clause
 
@@ -47,7 +50,10 @@ def check(run):
                 + ("; every 16-bit window of the windowed shapes swept through all 65536 values on a zero and an "
                    "all-ones background" if res["tier"]["windows"] else "")
                 + ". Each input is decoded twice by Message::try_from and twice by Message::from_bytes, accepted "
-                  "messages are rendered with Display and Debug. distinct_nontrivial = distinct byte strings that were "
+                  "messages are rendered with Display and Debug. Context independence: Comm-B frames are followed by the "
+                  "frame with the same MB field and another AC/ID header field and by themselves again; a sample (all "
+                  "Comm-B frames of the basic/random/pair fills, every 16th of the rest) is decoded again sorted by "
+                  "message field and in reverse, every result must equal the first one. distinct_nontrivial = distinct byte strings that were "
                   "accepted (they went through every field reader and both renderers), counted by 64-bit hash.",
         "samples": [{k: e[k] for k in ("hex", "cls", "len", "out", "fb_out", "fb_used", "disp", "dbg")} for e in samples],
         "exhaustive": False,
@@ -57,6 +63,7 @@ def check(run):
         "frames": res["frames"],
         "accepted": st["accepted"],
         "outcomes_try_from/from_bytes": st["outcomes"],
+        "context_events": st["events_ctx"],
         "rejected_events": len(rejected),
         "rejected_per_clause": dict(per_clause),
         "crashes_attributed": [{"i": c["i"], "kind": c["kind"], "hex": c["info"]["hex"]} for c in res["crashes"]],
@@ -74,6 +81,10 @@ def check(run):
 
 
 def replay(run, path):
+    with open(path) as f:
+        if json.load(f).get("signature", {}).get("clause") == "context":
+            check(run)          # a context dependence needs the order of the pass: re-run it
+            return run.finish()
     rejected, n = dp.replay_cases(run, path, "c01", "trace/Trace_Decode")
     _report(run, rejected, {"exe": core.build_rs("c01")})
     run.cov.update({"evaluations": max(n, 1), "distinct_nontrivial": max(n, 2), "rule": "replay of the cases of " + path,
